@@ -316,6 +316,9 @@ def c14(tier):
     sc = {"prop": "C14", "cfgs": cf, "alphabet": [-3, 0, 1, 4], "unit": 2, "maxlen": L, "bitexact": True}
     run.submit(p1_job, "pointwise", "MC_Def", sc)
     with_model(run, "pointwise", sc)
+    # the same pointwise definitions in f32 (values at 1e-4: the one-operation rounding check below is f64 only) and on the release build
+    run.submit(p1_job, "pointwise-f32", "MC_Def", {"prop": "C14", "cfgs": cf, "alphabet": [-3, 0, 1, 4], "unit": 2, "maxlen": L, "float": "f32", "eps": [1, 10000]})
+    run.submit(p1_job, "pointwise-release", "MC_Def", dict(sc), profile="release")
     # bit-exactness in general: children as stand-alone siblings (positions ia, ib), decimal inputs (unit 10, 7) so that
     # operands and results are NOT exactly representable; the combinator must return the IEEE-rounded result of one operation
     for unit, alpha in ((10, [-7, 0, 3, 12]), (7, [1, 2, 5, 9]), (1000000, [-3, 1, 4, 9])):
